@@ -208,11 +208,18 @@ def _energy_difference(imf, residue):
     https://doi.org/10.1016/j.ymssp.2007.11.028
 
     """
-    sumsqr = np.sum(imf**2)
-    imf_energy = 20 * np.log10(sumsqr, where=sumsqr > 0)
-    sumsqr = np.sum(residue ** 2)
-    resid_energy = 20 * np.log10(sumsqr, where=sumsqr > 0)
-    return imf_energy-resid_energy
+    imf_sumsqr = np.sum(imf**2)
+    resid_sumsqr = np.sum(residue ** 2)
+    if imf_sumsqr > 0 and resid_sumsqr > 0:
+        return 20 * np.log10(imf_sumsqr) - 20 * np.log10(resid_sumsqr)
+    elif imf_sumsqr > 0:
+        # No energy left in the residue - the ratio is unbounded
+        return np.inf
+    elif resid_sumsqr > 0:
+        return -np.inf
+    else:
+        # Neither signal has any energy, the ratio is undefined
+        return np.nan
 
 
 def energy_stop(imf, residue, thresh=50, niters=None):
